@@ -181,6 +181,43 @@ void h_less(void)
   /* O4 */ __CPROVER_assert(less(&a, &b) || less(&b, &a) || (a.tp == b.tp && a.id == b.id), "O4 less is total on distinct (time, id) pairs");
 }
 
+/* lifecycle: "scheduling on a stopped service is refused rather than lost". scheduleAt / schedulePeriodic decide on `_accepting` alone (P3/P4),
+ * so a service that reports Stopped must not be accepting.                                                                                      */
+void h_ts_stop(void)
+{
+  TimerService S; IORA_TRUE = 1; G_ts_seq = 0; G_ts_join_at = 0; G_ts_cleanup_at = 0; G_ts_drains = 0; G_errors = 0; G_drain_outcome = 0;
+  S._accepting = nondet_bool(); S._running = nondet_bool(); S._thread.joinable = nondet_bool();
+  __CPROVER_assume(S._lifecycleState >= LifecycleState_Created && S._lifecycleState <= LifecycleState_Reset);
+  __CPROVER_assume(!S._accepting || S._lifecycleState == LifecycleState_Running);     /* INV_L: accepting only while Running (initialize() and drain's recovery store both together; drain entry clears both together) */
+  /* ST0: what a timed-out drain() leaves behind (extracted recovery block, from the Draining state it is in) */
+  if (nondet_bool()) {
+    TimerService D = S; D._lifecycleState = LifecycleState_Draining; D._accepting = false;
+    TimerService_drainTimeoutRecovery(&D);
+    IORA_CANARY("h_ts_stop: drain recovery");
+    __CPROVER_assert(D._lifecycleState == LifecycleState_Running && D._accepting, "ST0 a timed-out drain() restores Running and accepting (retry is possible) - the outcome stop() must cope with");
+    return;
+  }
+  /* P4: scheduleAt's lock-free gate */
+  if (nondet_bool()) {
+    uint64_t r = TimerService_scheduleAtGuard(&S);
+    IORA_CANARY("h_ts_stop: scheduleAt gate");
+    __CPROVER_assert(S._accepting ? (r == 1 && G_errors == 0) : (r == 0 && G_errors == 1), "P4 scheduleAt refuses (id 0 + error) exactly when the service is not accepting");
+    return;
+  }
+  const int st0 = S._lifecycleState;
+  iora_lcr r = TimerService_stop(&S);
+  IORA_CANARY("h_ts_stop: stop returns");
+  /* ST1 */ __CPROVER_assert(!(st0 == LifecycleState_Stopped || st0 == LifecycleState_Reset) || (!r.success && S._lifecycleState == st0), "ST1 stop() from Stopped/Reset is refused and changes nothing");
+  if (r.success) {
+    IORA_CANARY("h_ts_stop: stopped");
+    if (G_drain_outcome == 2) { IORA_CANARY("h_ts_stop: stopped after a timed-out drain"); }
+    /* ST2 */ __CPROVER_assert(r.newState == LifecycleState_Stopped && S._lifecycleState == LifecycleState_Stopped && !S._running, "ST2 a successful stop() ends in Stopped with the run loop told to exit");
+    /* ST3 */ __CPROVER_assert(!S._accepting, "ST3 refused rather than lost: a service that reports Stopped is not accepting - whatever its drain attempt did (incl. a timed-out drain, which re-enables accepting)");
+    /* ST4 */ __CPROVER_assert(G_ts_cleanup_at == 0 || (G_ts_join_at == 0 ? !S._thread.joinable : G_ts_join_at < G_ts_cleanup_at), "ST4 descriptors are closed only after the service thread was joined");
+  }
+}
+
+/* ---------------------------------------------------------------------------------------------------------------- */
 /* INV_P establishment: schedulePeriodic's guard prefix (everything before `auto deadline = Clock::now() + interval;`)  */
 void h_periodic_guard(void)
 {
@@ -255,11 +292,17 @@ void h_search(void)
 void h_heap_pop_u(void)
 {
   TimerService S; size_t n = nondet_size_t(); IORA_TRUE = 1; GI = nondet_size_t();      /* witness index: arbitrary */
-  __CPROVER_assume(n >= 1 && n <= ((size_t)1 << 30) && GI <= ((size_t)1 << 31));
+  __CPROVER_assume(n >= 1 && n <= ((size_t)1 << 30) && GI <= ((size_t)1 << 31));      /* (n == 1: the heap just becomes empty - covered by H1 in B(7) and by pop_back's shim) */
   S._heap.a = (HeapItem *)malloc(n * sizeof(HeapItem)); __CPROVER_assume(S._heap.a != NULL); S._heap.n = n; G_heap_cap = n;
   __CPROVER_assume(U_OKAT(GI, n) && U_OKAT(2 * GI + 1, n) && U_OKAT(2 * GI + 2, n));      /* three instances of "is a heap" */
+  /* multiset witness: two arbitrary DIFFERENT start positions other than 0 (the minimum, which is the item removed) */
+  const size_t P1 = nondet_size_t(), P2 = nondet_size_t(); G_two = nondet_bool();
+  __CPROVER_assume(n >= 2 && P1 >= 1 && P1 < n && (!G_two || (P2 >= 1 && P2 < n && P2 != P1)));
+  G_ti = P1; G_tv = S._heap.a[P1]; G_ti2 = P2;
   TimerService_heapPop(&S);
   IORA_CANARY("h_heap_pop_u: returns");
+  /* H3u */ __CPROVER_assert(G_ti < n - 1 && S._heap.a[G_ti].tp == G_tv.tp && S._heap.a[G_ti].id == G_tv.id, "H3u every item other than the old front is still in the heap after heapPop (position tracker) - any heap size");
+  /* H3u */ __CPROVER_assert(!G_two || (G_ti2 < n - 1 && G_ti2 != G_ti), "H3u different items end at different positions: with size n-1 the new contents are exactly the old ones minus the front item (multiset)");
   /* H1u */ __CPROVER_assert(S._heap.n == n - 1, "H1u heapPop removes exactly one item");
   /* H2u */ __CPROVER_assert(U_OKAT(GI, n - 1), "H2u heap order (earliest time first) holds at every index after heapPop - any heap size");
 }
@@ -270,9 +313,15 @@ void h_heap_push_u(void)
   __CPROVER_assume(n <= ((size_t)1 << 30) && GI <= ((size_t)1 << 31));
   S._heap.a = (HeapItem *)malloc((n + 1) * sizeof(HeapItem)); __CPROVER_assume(S._heap.a != NULL); S._heap.n = n; G_heap_cap = n + 1;
   __CPROVER_assume(U_OKAT(GI, n) && U_OKAT(HPAR(GI), n));                                   /* two instances of "is a heap" */
+  /* multiset witness: two arbitrary different start positions in [0, n]; position n is the new item */
+  const size_t P1 = nondet_size_t(), P2 = nondet_size_t(); G_two = nondet_bool();
+  __CPROVER_assume(P1 <= n && (!G_two || (P2 <= n && P2 != P1)));
   iora_heap_emplace_back(&S._heap, x);
+  G_ti = P1; G_tv = S._heap.a[P1]; G_ti2 = P2;
   TimerService_siftUp(&S, iora_heap_size(&S._heap) - 1);
   IORA_CANARY("h_heap_push_u: returns");
+  /* H6u */ __CPROVER_assert(G_ti < n + 1 && S._heap.a[G_ti].tp == G_tv.tp && S._heap.a[G_ti].id == G_tv.id && (!G_two || (G_ti2 < n + 1 && G_ti2 != G_ti)),
+                             "H6u every old item and the new item are in the heap after emplace_back + siftUp, at different positions (multiset: old + new) - any heap size");
   /* H5u */ __CPROVER_assert(S._heap.n == n + 1 && U_OKAT(GI, n + 1), "H5u heap order (earliest time first) holds at every index after emplace_back + siftUp - any heap size");
 }
 #endif
